@@ -19,6 +19,28 @@ def ratio_text(packed, length):
     return ("%5.1f%%" % q).encode()
 
 
+_DELICATE = None
+
+
+def delicate_pairs():
+    """(packed, original) pairs whose ratio lies on, or within float rounding of, a boundary of the printed precision (x.x5 %): an
+    exact tie, or a pair for which a re-association of the single-precision arithmetic changes the digit printed"""
+    global _DELICATE
+    if _DELICATE is None:
+        out = []
+        for u in list(range(1, 260)) + [400, 800, 1000, 1600, 2000, 3000]:
+            for c in range(1, 2 * u + 2):
+                if c > 3100:
+                    break
+                tie = (2000 * c) % u == 0 and ((2000 * c) // u) % 2 == 1
+                a = "%5.1f" % f32(f32(f32(float(c)) * 100.0) / f32(float(u)))
+                b = "%5.1f" % f32(f32(f32(float(c)) / f32(float(u))) * 100.0)
+                if tie or a != b:
+                    out.append((c, u))
+        _DELICATE = out
+    return _DELICATE
+
+
 def glob_match(g, s):
     if not g:
         return not s
@@ -39,7 +61,7 @@ NOW = 1335830400
 HOSTILE = [0x01, 0x07, 0x08, 0x09, 0x0a, 0x0d, 0x1b, 0x1f, 0x7f, 0x80, 0x9b, 0xa0, 0xff]
 
 
-def rand_member(r, hostile=False):
+def rand_member(r, hostile=False, last=False):
     lvl = r.choice([0, 1, 2, 3])
     kind = r.choice(["file"] * 5 + ["dir", "link"])
     # every OS type byte the tool has a name for, and some it has none for
@@ -104,11 +126,21 @@ def rand_member(r, hostile=False):
     l0ext = b""
     if lvl == 0 and r.random() < 0.4:
         l0ext = b"U\0" + struct.pack("<I", stamp) + struct.pack("<HHH", r.choice([0o100644, 0o40755, r.getrandbits(16)]), r.getrandbits(16), r.getrandbits(16))
-    packed_field = r.choice(sizes)
     length = r.choice(sizes)
     payload = b"" if method == b"-lhd-" else b"data"
+    packed = None
+    q = r.random()
+    if method != b"-lhd-" and q < 0.35:
+        # a ratio on the edge of the printed precision (the data is really there: the archive stays walkable)
+        c, length = r.choice(delicate_pairs())
+        payload = b"d" * c
+    elif method != b"-lhd-" and q < 0.6:
+        payload = b"p" * r.choice([0, 1, 2, 9, 10, 99, 100, 999, 1000, 2999])
+    elif last and q < 0.85:
+        # only the last member can announce more data than there is
+        packed = r.choice(sizes)
     m = arc.Member(level=lvl, method=method, name=inname, payload=payload, length=length, crc=r.getrandbits(16), time=stamp_field,
-                   os=os_, exts=exts, l0ext=l0ext, packed=None)
+                   os=os_, exts=exts, l0ext=l0ext, packed=packed)
     raw = bytearray(m.bytes())
     return bytes(raw), m
 
@@ -120,7 +152,7 @@ def make_archive(r, sc, tag, hostile=False, nmax=6):
     n = r.randint(0 if not hostile else 1, nmax)
     parts = []
     for i in range(n):
-        raw, m = rand_member(r, hostile)
+        raw, m = rand_member(r, hostile, last=(i == n - 1))
         parts.append(raw)
     data = b"".join(parts) + b"\0"
     path = os.path.join(sc, tag + ".lzh")
